@@ -1,4 +1,5 @@
 import RedisEmu.Block
+import RedisEmu.Proofs.MWake
 import RedisEmu.Wake
 import Mathlib.Tactic.SplitIfs
 /-
@@ -581,6 +582,170 @@ theorem lost_wakeup_before_repair :
 example :
     let s := wrun true {} [.register, .look 0, .register, .look 1, .push [7], .leave 0, .retry 1]
     s.list = [] ∧ s.queue = [] ∧ s.token = [] := by
+  decide
+
+/-! ### clients that wait for several keys (`RedisEmu.MWake`)
+
+`BLPOP a b 0`, BLMPOP: a client is linked into the wait queue of each of its keys; a push to one key wakes it
+and unlinks it from all of them; it then looks at its keys in order. Per key `k` the invariant `MInv` says:
+the list of `k` has no more elements than there are mwake-ups raised by `k` and not acted on yet — or nobody
+waits passively for `k`. -/
+
+/-- **No lost mwake-up for clients that wait for several keys.** Every step of the repaired behaviour keeps,
+    for every key, "as many mwake-ups outstanding as the list has elements, or nobody waits passively". -/
+theorem mfull_step (s : MState) (st : MStep) (h : MFull s) : MFull (mstep true s st) := by
+  cases st with
+  | push k n =>
+    refine ⟨fun j => ?_, allOk_wake k n s.cs h.ok⟩
+    show MInv { len := incLen s.len k n, cs := mwake k n s.cs } j
+    by_cases e : j = k
+    · subst e
+      have hs := tokens_wake_same j n s.cs h.ok
+      have hq := qlen_wake_same j n s.cs
+      rcases h.inv j with a | a
+      · by_cases hn : n ≤ qlen j s.cs
+        · left; show incLen s.len j n j ≤ tokens j (mwake j n s.cs); simp only [incLen, ↓reduceIte]; omega
+        · right; exact noPassive_of_qlen_zero j (mwake j n s.cs) (by omega)
+      · right; exact noPassive_wake j j n s.cs a
+    · have ho := tokens_wake_other k j e n s.cs h.ok
+      rcases h.inv j with a | a
+      · left; show incLen s.len k n j ≤ tokens j (mwake k n s.cs); simp only [incLen, e, ↓reduceIte]; omega
+      · right; exact noPassive_wake k j n s.cs a
+  | register keys =>
+    refine ⟨fun j => ?_, ?_⟩
+    · show MInv { s with cs := s.cs ++ [_] } j
+      rcases h.inv j with a | a
+      · left; show s.len j ≤ tokens j (s.cs ++ [_]); rw [tokens_append_one j s.cs _ rfl]; exact a
+      · right
+        intro c hc hw
+        rcases List.mem_append.mp hc with e | e
+        · exact a c e hw
+        · simp only [List.mem_singleton] at e; subst e; rfl
+    · intro c hc
+      rcases List.mem_append.mp hc with e | e
+      · exact h.ok c e
+      · simp only [List.mem_singleton] at e; subst e
+        exact ⟨fun x => by simp at x, fun k x => by simp at x⟩
+  | steal k =>
+    refine ⟨fun j => ?_, h.ok⟩
+    show MInv { s with len := decLen s.len k } j
+    rcases h.inv j with a | a
+    · left; show decLen s.len k j ≤ tokens j s.cs; have := decLen_le s.len k j; omega
+    · right; exact a
+  | look i =>
+    simp only [mstep]
+    split
+    · exact h
+    · rename_i c hc
+      have hcm := List.mem_of_getElem? hc
+      split
+      · split
+        · rename_i j0 hf
+          cases ht : c.token with
+          | none =>
+            simp only [Option.isSome_none, Bool.false_eq_true, ↓reduceIte]
+            exact ⟨fun k => minv_erase s k i c _ hc (h.inv k) (decLen_le s.len j0 k) (by simp [ht]),
+              allOk_eraseIdx s.cs i h.ok⟩
+          | some k0 =>
+            simp only [Option.isSome_some, ↓reduceIte]
+            exact ⟨fun k => minv_leave_token s k k0 i c _ hc h.ok (h.inv k) (decLen_le s.len j0 k) ht,
+              allOk_wakeEach c.keys _ (allOk_eraseIdx s.cs i h.ok)⟩
+        · rename_i hf
+          refine ⟨fun k => minv_stays s k i c _ hc (h.ok c hcm) (h.inv k) rfl hf (Or.inl rfl), ?_⟩
+          intro d hd
+          rcases List.mem_or_eq_of_mem_set hd with e | e
+          · exact h.ok d e
+          · subst e; exact h.ok c hcm
+      · exact h
+  | leave i =>
+    simp only [mstep]
+    split
+    · exact h
+    · rename_i c hc
+      split
+      · exact h
+      · cases ht : c.token with
+        | none =>
+          simp only [Option.isSome_none, Bool.false_eq_true, ↓reduceIte]
+          exact ⟨fun k => minv_erase s k i c _ hc (h.inv k) (Nat.le_refl _) (by simp [ht]),
+            allOk_eraseIdx s.cs i h.ok⟩
+        | some k0 =>
+          simp only [Option.isSome_some, ↓reduceIte]
+          exact ⟨fun k => minv_leave_token s k k0 i c _ hc h.ok (h.inv k) (Nat.le_refl _) ht,
+            allOk_wakeEach c.keys _ (allOk_eraseIdx s.cs i h.ok)⟩
+  | retry i =>
+    simp only [mstep]
+    split
+    · exact h
+    · rename_i c hc
+      have hcm := List.mem_of_getElem? hc
+      split
+      · exact h
+      · rename_i k0 ht
+        split
+        · exact h
+        · split
+          · rename_i j0 hf
+            by_cases hj : j0 = k0
+            · subst hj
+              simp only [bne_self_eq_false, Bool.and_false, Bool.false_eq_true, ↓reduceIte]
+              exact ⟨fun k => minv_served_own s k j0 i c hc (h.inv k) ht, allOk_eraseIdx s.cs i h.ok⟩
+            · have hb : (true && j0 != k0) = true := by simp [hj]
+              simp only [hb, ↓reduceIte]
+              exact ⟨fun k => minv_served_other s k k0 j0 i c hc h.ok (h.inv k) ht hj,
+                allOk_wake k0 1 _ (allOk_eraseIdx s.cs i h.ok)⟩
+          · rename_i hf
+            refine ⟨fun k => minv_stays s k i c _ hc (h.ok c hcm) (h.inv k) rfl hf (Or.inr rfl), ?_⟩
+            intro d hd
+            rcases List.mem_or_eq_of_mem_set hd with e | e
+            · exact h.ok d e
+            · subst e; exact ⟨fun x => by simp at x, fun k x => by simp at x⟩
+
+/-- … hence in every reachable state, whatever the clients, keys and interleaving -/
+theorem mfull_reachable (steps : List MStep) : MFull (mrun true {} steps) := by
+  suffices ∀ s, MFull s → MFull (mrun true s steps) from this {} mfull_init
+  induction steps with
+  | nil => intro s h; exact h
+  | cons st r ih => intro s h; exact ih _ (mfull_step s st h)
+
+
+/-- **Nobody stays blocked on a non-empty list.** In every reachable state in which nobody is in motion (no
+    client is about to look at its lists, no mwake-up is outstanding), a key whose list is not empty has no
+    waiter — for any number of clients, any sets of keys, any interleaving of pushes, pops, registrations,
+    looks, retries, timeouts and unblocks. -/
+theorem multi_key_quiescent_means_served (steps : List MStep) (k : Nat)
+    (hq : ∀ c ∈ (mrun true {} steps).cs, c.pending = false ∧ c.token = none)
+    (hl : 0 < (mrun true {} steps).len k) :
+    ∀ c ∈ (mrun true {} steps).cs, c.waitsOn k = false := by
+  have h := (mfull_reachable steps).inv k
+  intro c hc
+  rcases h with a | a
+  · have : tokens k (mrun true {} steps).cs = 0 := by
+      unfold tokens
+      rw [List.countP_eq_zero]
+      intro d hd
+      simp [(hq d hd).2]
+    omega
+  · cases hw : c.waitsOn k with
+    | false => rfl
+    | true => have := a c hc hw; rw [(hq c hc).1] at this; cases this
+
+/-- the history of D90: W1 waits for keys 0 and 1, W2 for key 1; a push to key 1 wakes W1, a push to key 0
+    follows; W1 is served from key 0 -/
+def d90Trace : List MStep :=
+  [.register [0, 1], .look 0, .register [1], .look 1, .push 1 1, .push 0 1, .retry 0]
+
+/-- D90 on the behaviour before the repair: the element stays in list 1, no mwake-up is outstanding, and W2
+    waits passively for key 1 — a lost mwake-up -/
+theorem multi_key_lost_wakeup_before_repair :
+    let s := mrun false {} d90Trace
+    s.len 1 = 1 ∧ tokens 1 s.cs = 0 ∧ s.cs = [{ keys := [1], pending := false, token := none, queued := true }] := by
+  decide
+
+/-- … and with the repair W2 holds the mwake-up -/
+theorem multi_key_wakeup_passed_on :
+    let s := mrun true {} d90Trace
+    s.len 1 = 1 ∧ s.cs = [{ keys := [1], pending := false, token := some 1, queued := false }] := by
   decide
 
 end RedisEmu
